@@ -1,13 +1,30 @@
 //! C12 — Pinocchio port ≡ Anchor implementation (differentials on identical symbolic bytes).
+//!
+//! Layout of this file
+//!   §0 helpers (views over raw bytes, Anchor decode/encode, local uninterpreted-function stubs)
+//!   §1 memory-mapped views vs Anchor account types (read with one, write with the other)
+//!   §2 ported manager functions vs their Anchor originals
+//!   §3 twin
 use crate::common::*;
-use anchor_lang::AccountDeserialize;
+use anchor_lang::{AccountDeserialize, AccountSerialize, AnchorDeserialize, AnchorSerialize, Discriminator};
+use ::whirlpool::errors::ErrorCode;
+use ::whirlpool::manager::liquidity_manager::*;
+use ::whirlpool::manager::position_manager::next_position_modify_liquidity_update;
+use ::whirlpool::manager::tick_array_manager::{
+    calculate_modify_tick_array, TickArrayRentTransfer, TickArraySizeUpdate, TickArrayUpdate,
+};
 use ::whirlpool::manager::tick_manager::*;
+use ::whirlpool::manager::whirlpool_manager::{next_whirlpool_liquidity, next_whirlpool_reward_infos};
 use ::whirlpool::pinocchio::ported::manager_liquidity_manager::*;
 use ::whirlpool::pinocchio::state::whirlpool::tick_array::TickUpdate as PTickUpdate;
 use ::whirlpool::pinocchio::state::whirlpool::{
     MemoryMappedPosition, MemoryMappedTick, MemoryMappedWhirlpool,
 };
+use ::whirlpool::pinocchio::state::WhirlpoolProgramAccount;
 use ::whirlpool::state::*;
+
+// ---------------------------------------------------------------------------------------------
+// §0 helpers
 
 pub fn tick_from_bytes(b: &[u8; 113]) -> Tick {
     // Anchor zero-copy view of a tick (packed, 113 bytes)
@@ -16,6 +33,14 @@ pub fn tick_from_bytes(b: &[u8; 113]) -> Tick {
 }
 pub fn mtick(b: &[u8; 113]) -> &MemoryMappedTick {
     unsafe { &*(b.as_ptr() as *const MemoryMappedTick) }
+}
+pub fn mtick_mut(b: &mut [u8; 113]) -> &mut MemoryMappedTick {
+    unsafe { &mut *(b.as_mut_ptr() as *mut MemoryMappedTick) }
+}
+pub fn any_tick_bytes() -> [u8; 113] {
+    let b: [u8; 113] = kani::any();
+    kani::assume(b[0] <= 1); // `initialized` is a bool in every account the program writes
+    b
 }
 pub fn any_rewards() -> [WhirlpoolRewardInfo; 3] {
     let mut r = [WhirlpoolRewardInfo::default(); 3];
@@ -37,6 +62,333 @@ fn same_update(a: &TickUpdate, p: &PTickUpdate) -> bool {
         && a.reward_growths_outside[1] == p.reward_growths_outside[1]
         && a.reward_growths_outside[2] == p.reward_growths_outside[2]
 }
+fn any_tick_updates() -> (TickUpdate, PTickUpdate) {
+    let a = TickUpdate {
+        initialized: kani::any(),
+        liquidity_net: kani::any(),
+        liquidity_gross: kani::any(),
+        fee_growth_outside_a: kani::any(),
+        fee_growth_outside_b: kani::any(),
+        reward_growths_outside: [kani::any(), kani::any(), kani::any()],
+    };
+    let p = PTickUpdate {
+        initialized: a.initialized,
+        liquidity_net: a.liquidity_net,
+        liquidity_gross: a.liquidity_gross,
+        fee_growth_outside_a: a.fee_growth_outside_a,
+        fee_growth_outside_b: a.fee_growth_outside_b,
+        reward_growths_outside: a.reward_growths_outside,
+    };
+    (a, p)
+}
+fn any_position_update() -> PositionUpdate {
+    let mut u = PositionUpdate::default();
+    u.liquidity = kani::any();
+    u.fee_growth_checkpoint_a = kani::any();
+    u.fee_owed_a = kani::any();
+    u.fee_growth_checkpoint_b = kani::any();
+    u.fee_owed_b = kani::any();
+    for i in 0..3 {
+        u.reward_infos[i].growth_inside_checkpoint = kani::any();
+        u.reward_infos[i].amount_owed = kani::any();
+    }
+    u
+}
+
+/// 32-byte equality without a loop (keeps the unwinding bound independent of key compares in the harness)
+fn eq32(a: &[u8; 32], b: &[u8; 32]) -> bool {
+    let a0 = u128::from_le_bytes(*arrayref(a, 0));
+    let a1 = u128::from_le_bytes(*arrayref(a, 16));
+    let b0 = u128::from_le_bytes(*arrayref(b, 0));
+    let b1 = u128::from_le_bytes(*arrayref(b, 16));
+    a0 == b0 && a1 == b1
+}
+fn arrayref(a: &[u8; 32], off: usize) -> &[u8; 16] {
+    unsafe { &*(a.as_ptr().add(off) as *const [u8; 16]) }
+}
+
+pub const WP_LEN: usize = 653;
+pub const POS_LEN: usize = 216;
+
+/// 653 symbolic bytes carrying the Anchor `Whirlpool` discriminator
+pub fn any_wp_bytes() -> [u8; WP_LEN] {
+    let mut b: [u8; WP_LEN] = kani::any();
+    let d = Whirlpool::DISCRIMINATOR;
+    let mut i = 0;
+    while i < 8 {
+        b[i] = d[i];
+        i += 1;
+    }
+    b
+}
+/// 216 symbolic bytes carrying the Anchor `Position` discriminator
+pub fn any_pos_bytes() -> [u8; POS_LEN] {
+    let mut b: [u8; POS_LEN] = kani::any();
+    let d = Position::DISCRIMINATOR;
+    let mut i = 0;
+    while i < 8 {
+        b[i] = d[i];
+        i += 1;
+    }
+    b
+}
+pub fn wp_view(b: &[u8; WP_LEN]) -> &MemoryMappedWhirlpool {
+    assert!(core::mem::size_of::<MemoryMappedWhirlpool>() == WP_LEN);
+    unsafe { &*(b.as_ptr() as *const MemoryMappedWhirlpool) }
+}
+pub fn wp_view_mut(b: &mut [u8; WP_LEN]) -> &mut MemoryMappedWhirlpool {
+    unsafe { &mut *(b.as_mut_ptr() as *mut MemoryMappedWhirlpool) }
+}
+pub fn pos_view(b: &[u8; POS_LEN]) -> &MemoryMappedPosition {
+    assert!(core::mem::size_of::<MemoryMappedPosition>() == POS_LEN);
+    unsafe { &*(b.as_ptr() as *const MemoryMappedPosition) }
+}
+pub fn pos_view_mut(b: &mut [u8; POS_LEN]) -> &mut MemoryMappedPosition {
+    unsafe { &mut *(b.as_mut_ptr() as *mut MemoryMappedPosition) }
+}
+/// Anchor decode (discriminator check + Borsh), as `Account<Whirlpool>` does on load
+pub fn wp_decode(b: &[u8; WP_LEN]) -> Whirlpool {
+    let r = Whirlpool::try_deserialize(&mut &b[..]);
+    match r {
+        Ok(w) => w,
+        Err(e) => {
+            core::mem::forget(e);
+            panic!("whirlpool bytes must decode")
+        }
+    }
+}
+pub fn pos_decode(b: &[u8; POS_LEN]) -> Position {
+    let r = Position::try_deserialize(&mut &b[..]);
+    match r {
+        Ok(w) => w,
+        Err(e) => {
+            core::mem::forget(e);
+            panic!("position bytes must decode")
+        }
+    }
+}
+/// Anchor encode (discriminator + Borsh), as `Account<Whirlpool>::exit` does
+pub fn wp_encode(w: &Whirlpool) -> [u8; WP_LEN] {
+    let mut out = [0u8; WP_LEN];
+    let mut cur: &mut [u8] = &mut out[..];
+    let r = w.try_serialize(&mut cur);
+    let ok = r.is_ok();
+    let rest = cur.len();
+    core::mem::forget(r);
+    assert!(ok && rest == 0, "whirlpool must serialize to exactly 653 bytes");
+    out
+}
+pub fn pos_encode(p: &Position) -> [u8; POS_LEN] {
+    let mut out = [0u8; POS_LEN];
+    let mut cur: &mut [u8] = &mut out[..];
+    let r = p.try_serialize(&mut cur);
+    let ok = r.is_ok();
+    let rest = cur.len();
+    core::mem::forget(r);
+    assert!(ok && rest == 0, "position must serialize to exactly 216 bytes");
+    out
+}
+
+/// exact-at-zero wrapper around the uninterpreted `checked_mul_div` (n0*n1/d with a zero factor is 0):
+/// the Pinocchio port skips the call when emissions are 0, the Anchor code performs it.
+fn stub_mul_div_z(n0: u128, n1: u128, d: u128) -> Result<u128, ErrorCode> {
+    if d == 0 {
+        return Err(ErrorCode::DivideByZero);
+    }
+    if n0 == 0 || n1 == 0 {
+        return Ok(0);
+    }
+    memo::stub_checked_mul_div(n0, n1, d)
+}
+
+// ---------------------------------------------------------------------------------------------
+// §1 memory-mapped views vs Anchor account types
+
+/// MemoryMappedWhirlpool: every getter (and `seeds`, reward-info getters, `initialized`) returns what
+/// `Whirlpool::try_deserialize` decodes from the same 653 bytes; discriminator constants agree
+// @verif prop=C12 tier=quick timeout=300
+#[kani::proof]
+#[kani::unwind(34)]
+#[kani::stub(alloc::fmt::format, stub_format)]
+#[kani::stub(<anchor_lang::error::Error as core::convert::From<anchor_lang::error::ErrorCode>>::from, stub_err_from_anchor_code)]
+#[kani::stub(<anchor_lang::error::Error as core::convert::From<::whirlpool::errors::ErrorCode>>::from, stub_err_from_code)]
+fn c12_view_whirlpool_read() {
+    let bytes = any_wp_bytes();
+    let w = wp_decode(&bytes);
+    let v = wp_view(&bytes);
+    assert!(<MemoryMappedWhirlpool as WhirlpoolProgramAccount>::DISCRIMINATOR[..] == *Whirlpool::DISCRIMINATOR);
+    assert!(v.tick_spacing() == w.tick_spacing);
+    assert!(v.liquidity() == w.liquidity);
+    assert!(v.sqrt_price() == w.sqrt_price);
+    assert!(v.tick_current_index() == w.tick_current_index);
+    assert!(eq32(v.token_mint_a(), &w.token_mint_a.to_bytes()));
+    assert!(eq32(v.token_mint_b(), &w.token_mint_b.to_bytes()));
+    assert!(eq32(v.token_vault_a(), &w.token_vault_a.to_bytes()));
+    assert!(eq32(v.token_vault_b(), &w.token_vault_b.to_bytes()));
+    assert!(v.fee_growth_global_a() == w.fee_growth_global_a);
+    assert!(v.fee_growth_global_b() == w.fee_growth_global_b);
+    assert!(v.reward_last_updated_timestamp() == w.reward_last_updated_timestamp);
+    let ri = v.reward_infos();
+    let mut i = 0;
+    while i < 3 {
+        assert!(eq32(ri[i].mint(), &w.reward_infos[i].mint.to_bytes()));
+        assert!(eq32(ri[i].vault(), &w.reward_infos[i].vault.to_bytes()));
+        assert!(eq32(ri[i].extension(), &w.reward_infos[i].extension));
+        assert!(ri[i].emissions_per_second_x64() == w.reward_infos[i].emissions_per_second_x64);
+        assert!(ri[i].growth_global_x64() == w.reward_infos[i].growth_global_x64);
+        assert!(ri[i].initialized() == w.reward_infos[i].initialized());
+        i += 1;
+    }
+    // PDA signer seeds: same six byte strings
+    let ps = v.seeds();
+    let as_ = w.seeds();
+    let k: usize = kani::any();
+    kani::assume(k < 6);
+    assert!(ps[k].len() == as_[k].len());
+    let j: usize = kani::any();
+    kani::assume(j < as_[k].len());
+    assert!(ps[k][j] == as_[k][j]);
+    kani::cover!(ri[1].initialized() && !ri[2].initialized(), "mixed reward initialisation");
+}
+
+/// MemoryMappedWhirlpool::update_liquidity_and_reward_growth_global writes exactly the bytes that
+/// Anchor decode → Whirlpool::update_rewards_and_liquidity → Anchor encode produces (all 653 bytes)
+// @verif prop=C12 tier=quick timeout=300
+#[kani::proof]
+#[kani::unwind(34)]
+#[kani::stub(alloc::fmt::format, stub_format)]
+#[kani::stub(<anchor_lang::error::Error as core::convert::From<anchor_lang::error::ErrorCode>>::from, stub_err_from_anchor_code)]
+#[kani::stub(<anchor_lang::error::Error as core::convert::From<::whirlpool::errors::ErrorCode>>::from, stub_err_from_code)]
+fn c12_view_whirlpool_write() {
+    let bytes = any_wp_bytes();
+    let liq: u128 = kani::any();
+    let g: [u128; 3] = [kani::any(), kani::any(), kani::any()];
+    let ts: u64 = kani::any();
+    let k: usize = kani::any();
+    kani::assume(k < WP_LEN);
+    // Pinocchio write
+    let mut pb = bytes;
+    wp_view_mut(&mut pb).update_liquidity_and_reward_growth_global(liq, &g, ts);
+    // Anchor write
+    let mut w = wp_decode(&bytes);
+    let mut infos = w.reward_infos;
+    infos[0].growth_global_x64 = g[0];
+    infos[1].growth_global_x64 = g[1];
+    infos[2].growth_global_x64 = g[2];
+    w.update_rewards_and_liquidity(infos, liq, ts);
+    let ab = wp_encode(&w);
+    assert!(pb[k] == ab[k]);
+    // and read back across: Anchor decodes what Pinocchio wrote
+    let w2 = wp_decode(&pb);
+    assert!(w2.liquidity == liq && w2.reward_last_updated_timestamp == ts);
+    assert!(w2.reward_infos[0].growth_global_x64 == g[0]);
+    assert!(w2.reward_infos[1].growth_global_x64 == g[1]);
+    assert!(w2.reward_infos[2].growth_global_x64 == g[2]);
+    // Pinocchio reads what Anchor wrote
+    let v2 = wp_view(&ab);
+    assert!(v2.liquidity() == liq && v2.reward_last_updated_timestamp() == ts);
+    assert!(v2.reward_infos()[2].growth_global_x64() == g[2]);
+    kani::cover!(pb[k] != bytes[k], "a byte changed");
+}
+
+/// MemoryMappedPosition: every getter returns what `Position::try_deserialize` decodes from the same 216 bytes
+// @verif prop=C12 tier=quick timeout=300
+#[kani::proof]
+#[kani::unwind(34)]
+#[kani::stub(alloc::fmt::format, stub_format)]
+#[kani::stub(<anchor_lang::error::Error as core::convert::From<anchor_lang::error::ErrorCode>>::from, stub_err_from_anchor_code)]
+#[kani::stub(<anchor_lang::error::Error as core::convert::From<::whirlpool::errors::ErrorCode>>::from, stub_err_from_code)]
+fn c12_view_position_read() {
+    let bytes = any_pos_bytes();
+    let p = pos_decode(&bytes);
+    let v = pos_view(&bytes);
+    assert!(<MemoryMappedPosition as WhirlpoolProgramAccount>::DISCRIMINATOR[..] == *Position::DISCRIMINATOR);
+    assert!(eq32(v.whirlpool(), &p.whirlpool.to_bytes()));
+    assert!(eq32(v.position_mint(), &p.position_mint.to_bytes()));
+    assert!(v.liquidity() == p.liquidity);
+    assert!(v.tick_lower_index() == p.tick_lower_index);
+    assert!(v.tick_upper_index() == p.tick_upper_index);
+    assert!(v.fee_growth_checkpoint_a() == p.fee_growth_checkpoint_a);
+    assert!(v.fee_owed_a() == p.fee_owed_a);
+    assert!(v.fee_growth_checkpoint_b() == p.fee_growth_checkpoint_b);
+    assert!(v.fee_owed_b() == p.fee_owed_b);
+    let ri = v.reward_infos();
+    let mut i = 0;
+    while i < 3 {
+        assert!(ri[i].growth_inside_checkpoint() == p.reward_infos[i].growth_inside_checkpoint);
+        assert!(ri[i].amount_owed() == p.reward_infos[i].amount_owed);
+        i += 1;
+    }
+    kani::cover!(v.liquidity() != 0 && v.tick_lower_index() < v.tick_upper_index(), "plausible position");
+}
+
+/// MemoryMappedPosition::update writes exactly the bytes of Anchor decode → Position::update → Anchor encode
+// @verif prop=C12 tier=quick timeout=300
+#[kani::proof]
+#[kani::unwind(34)]
+#[kani::stub(alloc::fmt::format, stub_format)]
+#[kani::stub(<anchor_lang::error::Error as core::convert::From<anchor_lang::error::ErrorCode>>::from, stub_err_from_anchor_code)]
+#[kani::stub(<anchor_lang::error::Error as core::convert::From<::whirlpool::errors::ErrorCode>>::from, stub_err_from_code)]
+fn c12_view_position_update() {
+    let bytes = any_pos_bytes();
+    let u = any_position_update();
+    let k: usize = kani::any();
+    kani::assume(k < POS_LEN);
+    let mut pb = bytes;
+    pos_view_mut(&mut pb).update(&u);
+    let mut p = pos_decode(&bytes);
+    p.update(&u);
+    let ab = pos_encode(&p);
+    assert!(pb[k] == ab[k]);
+    // read back across
+    let p2 = pos_decode(&pb);
+    assert!(p2.liquidity == u.liquidity && p2.fee_owed_a == u.fee_owed_a && p2.fee_owed_b == u.fee_owed_b);
+    assert!(p2.reward_infos[0] == u.reward_infos[0]);
+    assert!(p2.reward_infos[1] == u.reward_infos[1]);
+    assert!(p2.reward_infos[2] == u.reward_infos[2]);
+    let v2 = pos_view(&ab);
+    assert!(v2.liquidity() == u.liquidity);
+    assert!(v2.fee_growth_checkpoint_a() == u.fee_growth_checkpoint_a);
+    assert!(v2.fee_growth_checkpoint_b() == u.fee_growth_checkpoint_b);
+    assert!(v2.reward_infos()[2].amount_owed() == u.reward_infos[2].amount_owed);
+    assert!(v2.reward_infos()[1].growth_inside_checkpoint() == u.reward_infos[1].growth_inside_checkpoint);
+    kani::cover!(pb[k] != bytes[k], "a byte changed");
+}
+
+/// MemoryMappedTick getters ≡ zero-copy `Tick` fields on the same 113 bytes; MemoryMappedTick::update writes
+/// exactly the bytes `Tick::update` writes
+// @verif prop=C12 tier=quick timeout=300
+#[kani::proof]
+#[kani::unwind(5)]
+#[kani::stub(alloc::fmt::format, stub_format)]
+fn c12_view_tick_read_write() {
+    let bytes = any_tick_bytes();
+    let (au, pu) = any_tick_updates();
+    let k: usize = kani::any();
+    kani::assume(k < 113);
+    assert!(core::mem::size_of::<MemoryMappedTick>() == 113 && core::mem::size_of::<Tick>() == 113);
+    let t = tick_from_bytes(&bytes);
+    let v = mtick(&bytes);
+    assert!(v.initialized() == t.initialized);
+    assert!(v.liquidity_net() == { t.liquidity_net });
+    assert!(v.liquidity_gross() == { t.liquidity_gross });
+    assert!(v.fee_growth_outside_a() == { t.fee_growth_outside_a });
+    assert!(v.fee_growth_outside_b() == { t.fee_growth_outside_b });
+    let r = v.reward_growths_outside();
+    let tr = { t.reward_growths_outside };
+    assert!(r[0] == tr[0] && r[1] == tr[1] && r[2] == tr[2]);
+    // write
+    let mut pb = bytes;
+    mtick_mut(&mut pb).update(&pu);
+    let mut t2 = t;
+    t2.update(&au);
+    let ab: [u8; 113] = unsafe { core::mem::transmute(t2) };
+    assert!(pb[k] == ab[k]);
+    kani::cover!(pb[k] != bytes[k], "a byte changed");
+}
+
+// ---------------------------------------------------------------------------------------------
+// §2 ported functions vs Anchor originals
 
 /// pino_next_tick_modify_liquidity_update ≡ next_tick_modify_liquidity_update on all 113-byte ticks and arguments
 // @verif prop=C12 tier=quick timeout=300
@@ -72,6 +424,188 @@ fn c12_tick_modify_equiv() {
     }
     core::mem::forget(p);
 }
+
+/// pino_next_fee_growths_inside ≡ next_fee_growths_inside on all pairs of 113-byte ticks, indexes and globals
+// @verif prop=C12 tier=quick timeout=300
+#[kani::proof]
+#[kani::unwind(5)]
+#[kani::stub(alloc::fmt::format, stub_format)]
+fn c12_fee_growths_inside_equiv() {
+    let lb = any_tick_bytes();
+    let ub = any_tick_bytes();
+    let cur: i32 = kani::any();
+    let li: i32 = kani::any();
+    let ui: i32 = kani::any();
+    let ga: u128 = kani::any();
+    let gb: u128 = kani::any();
+    let a = next_fee_growths_inside(cur, &tick_from_bytes(&lb), li, &tick_from_bytes(&ub), ui, ga, gb);
+    let p = pino_next_fee_growths_inside(cur, mtick(&lb), li, mtick(&ub), ui, ga, gb);
+    assert!(a.0 == p.0 && a.1 == p.1);
+    kani::cover!(lb[0] == 1 && ub[0] == 1 && cur >= li && cur < ui && a.0 != 0, "inside range, both initialised");
+    kani::cover!(lb[0] == 1 && cur < li, "below range");
+    kani::cover!(ub[0] == 1 && cur >= ui, "above range");
+}
+
+/// pino_next_reward_growths_inside ≡ next_reward_growths_inside: reward infos taken from the same 653 whirlpool
+/// bytes (Pinocchio: view + separate next-growth array; Anchor: decoded infos with the growths replaced)
+// @verif prop=C12 tier=quick timeout=300
+#[kani::proof]
+#[kani::unwind(34)]
+#[kani::stub(alloc::fmt::format, stub_format)]
+#[kani::stub(<anchor_lang::error::Error as core::convert::From<anchor_lang::error::ErrorCode>>::from, stub_err_from_anchor_code)]
+#[kani::stub(<anchor_lang::error::Error as core::convert::From<::whirlpool::errors::ErrorCode>>::from, stub_err_from_code)]
+fn c12_reward_growths_inside_equiv() {
+    let wb = any_wp_bytes();
+    let lb = any_tick_bytes();
+    let ub = any_tick_bytes();
+    let cur: i32 = kani::any();
+    let li: i32 = kani::any();
+    let ui: i32 = kani::any();
+    let next: [u128; 3] = [kani::any(), kani::any(), kani::any()];
+    let w = wp_decode(&wb);
+    let mut infos = w.reward_infos;
+    infos[0].growth_global_x64 = next[0];
+    infos[1].growth_global_x64 = next[1];
+    infos[2].growth_global_x64 = next[2];
+    let a = next_reward_growths_inside(cur, &tick_from_bytes(&lb), li, &tick_from_bytes(&ub), ui, &infos);
+    let p = pino_next_reward_growths_inside(cur, mtick(&lb), li, mtick(&ub), ui, wp_view(&wb).reward_infos(), &next);
+    assert!(a[0] == p[0] && a[1] == p[1] && a[2] == p[2]);
+    kani::cover!(a[0] != 0 && a[1] == 0 && a[2] != 0, "initialised / uninitialised rewards mixed");
+}
+
+/// verif_pino_next_position_modify_liquidity_update ≡ next_position_modify_liquidity_update on all 216-byte
+/// positions; checked_mul_shift_right is the same uninterpreted function on both sides
+// @verif prop=C12 tier=quick timeout=300
+#[kani::proof]
+#[kani::unwind(34)]
+#[kani::stub(alloc::fmt::format, stub_format)]
+#[kani::stub(<anchor_lang::error::Error as core::convert::From<anchor_lang::error::ErrorCode>>::from, stub_err_from_anchor_code)]
+#[kani::stub(<anchor_lang::error::Error as core::convert::From<::whirlpool::errors::ErrorCode>>::from, stub_err_from_code)]
+#[kani::stub(<::whirlpool::pinocchio::errors::UnifiedError as core::convert::From<::whirlpool::errors::ErrorCode>>::from, stub_unified_from_code)]
+#[kani::stub(::whirlpool::math::bit_math::checked_mul_shift_right, memo::stub_checked_mul_shift_right)]
+fn c12_position_modify_equiv() {
+    let pb = any_pos_bytes();
+    let delta: i128 = kani::any();
+    let fa: u128 = kani::any();
+    let fb: u128 = kani::any();
+    let rg: [u128; 3] = [kani::any(), kani::any(), kani::any()];
+    let pos = pos_decode(&pb);
+    let a = next_position_modify_liquidity_update(&pos, delta, fa, fb, &rg);
+    let p = verif_pino_next_position_modify_liquidity_update(pos_view(&pb), delta, fa, fb, &rg);
+    kani::cover!(a.is_ok() && delta != 0, "ok with change");
+    kani::cover!(a.is_err(), "err");
+    match (&a, &p) {
+        (Ok(x), Ok(y)) => {
+            assert!(x == y);
+            kani::cover!(x.fee_owed_a != pos.fee_owed_a && x.reward_infos[2].amount_owed != pos.reward_infos[2].amount_owed, "fees and rewards accrue");
+        }
+        (Err(x), Err(y)) => assert!(ecode(*x) == ucode(y)),
+        _ => assert!(false, "outcome kind differs"),
+    }
+    core::mem::forget(p);
+}
+
+/// verif_pino_next_whirlpool_liquidity ≡ next_whirlpool_liquidity on all 653-byte pools, ranges and deltas
+// @verif prop=C12 tier=quick timeout=300
+#[kani::proof]
+#[kani::unwind(34)]
+#[kani::stub(alloc::fmt::format, stub_format)]
+#[kani::stub(<anchor_lang::error::Error as core::convert::From<anchor_lang::error::ErrorCode>>::from, stub_err_from_anchor_code)]
+#[kani::stub(<anchor_lang::error::Error as core::convert::From<::whirlpool::errors::ErrorCode>>::from, stub_err_from_code)]
+#[kani::stub(<::whirlpool::pinocchio::errors::UnifiedError as core::convert::From<::whirlpool::errors::ErrorCode>>::from, stub_unified_from_code)]
+fn c12_whirlpool_liquidity_equiv() {
+    let wb = any_wp_bytes();
+    let up: i32 = kani::any();
+    let lo: i32 = kani::any();
+    let delta: i128 = kani::any();
+    let w = wp_decode(&wb);
+    let a = next_whirlpool_liquidity(&w, up, lo, delta);
+    let p = verif_pino_next_whirlpool_liquidity(wp_view(&wb), up, lo, delta);
+    kani::cover!(a.is_ok() && a != Ok(w.liquidity), "in range, changed");
+    kani::cover!(a.is_err(), "err");
+    match (&a, &p) {
+        (Ok(x), Ok(y)) => assert!(x == y),
+        (Err(x), Err(y)) => assert!(ecode(*x) == ucode(y)),
+        _ => assert!(false, "outcome kind differs"),
+    }
+    core::mem::forget(p);
+}
+
+/// verif_pino_next_whirlpool_reward_growth_global ≡ growth_global_x64 of next_whirlpool_reward_infos on all
+/// 653-byte pools and timestamps. checked_mul_div is one uninterpreted function (exact for a zero factor).
+/// Invariant assumed: an uninitialised reward (mint == default) has emissions_per_second_x64 == 0 — emissions are
+/// only written by set_reward_emissions(_v2), whose `reward_vault` constraint (a token account at
+/// `reward_infos[i].vault`) cannot hold for the all-zero vault key of an uninitialised reward. The Pinocchio
+/// port relies on it ("It is same to !reward_info.initialized()").
+// @verif prop=C12 tier=quick timeout=300
+#[kani::proof]
+#[kani::unwind(34)]
+#[kani::stub(alloc::fmt::format, stub_format)]
+#[kani::stub(<anchor_lang::error::Error as core::convert::From<anchor_lang::error::ErrorCode>>::from, stub_err_from_anchor_code)]
+#[kani::stub(<anchor_lang::error::Error as core::convert::From<::whirlpool::errors::ErrorCode>>::from, stub_err_from_code)]
+#[kani::stub(<::whirlpool::pinocchio::errors::UnifiedError as core::convert::From<::whirlpool::errors::ErrorCode>>::from, stub_unified_from_code)]
+#[kani::stub(::whirlpool::math::bit_math::checked_mul_div, stub_mul_div_z)]
+fn c12_reward_growth_global_equiv() {
+    let wb = any_wp_bytes();
+    let ts: u64 = kani::any();
+    let w = wp_decode(&wb);
+    let mut i = 0;
+    while i < 3 {
+        if !w.reward_infos[i].initialized() {
+            kani::assume(w.reward_infos[i].emissions_per_second_x64 == 0);
+        }
+        i += 1;
+    }
+    let a = next_whirlpool_reward_infos(&w, ts);
+    let p = verif_pino_next_whirlpool_reward_growth_global(wp_view(&wb), ts);
+    kani::cover!(a.is_ok() && ts > w.reward_last_updated_timestamp && w.liquidity != 0
+        && w.reward_infos[0].emissions_per_second_x64 != 0 && w.reward_infos[2].initialized()
+        && w.reward_infos[2].emissions_per_second_x64 == 0, "growth accrues; initialised reward with zero emissions");
+    kani::cover!(a.is_err(), "err");
+    match (&a, &p) {
+        (Ok(x), Ok(y)) => {
+            assert!(x[0].growth_global_x64 == y[0]);
+            assert!(x[1].growth_global_x64 == y[1]);
+            assert!(x[2].growth_global_x64 == y[2]);
+        }
+        (Err(x), Err(y)) => assert!(ecode(*x) == ucode(y)),
+        _ => assert!(false, "outcome kind differs"),
+    }
+    core::mem::forget(p);
+}
+
+/// verif_pino_calculate_modify_tick_array ≡ calculate_modify_tick_array (rent-transfer and realloc decision)
+/// on all 216-byte positions, 113-byte ticks, position/tick updates and both array kinds
+// @verif prop=C12 tier=quick timeout=300
+#[kani::proof]
+#[kani::unwind(34)]
+#[kani::stub(alloc::fmt::format, stub_format)]
+#[kani::stub(<anchor_lang::error::Error as core::convert::From<anchor_lang::error::ErrorCode>>::from, stub_err_from_anchor_code)]
+#[kani::stub(<anchor_lang::error::Error as core::convert::From<::whirlpool::errors::ErrorCode>>::from, stub_err_from_code)]
+#[kani::stub(<::whirlpool::pinocchio::errors::UnifiedError as core::convert::From<::whirlpool::errors::ErrorCode>>::from, stub_unified_from_code)]
+fn c12_modify_tick_array_equiv() {
+    let pb = any_pos_bytes();
+    let tb = any_tick_bytes();
+    let pu = any_position_update();
+    let (au, ptu) = any_tick_updates();
+    let variable: bool = kani::any();
+    let pos = pos_decode(&pb);
+    let a = calculate_modify_tick_array(&pos, &pu, variable, &tick_from_bytes(&tb), &au);
+    let p = verif_pino_calculate_modify_tick_array(pos_view(&pb), &pu, variable, mtick(&tb), &ptu);
+    match (&a, &p) {
+        (Ok(x), Ok(y)) => {
+            assert!(x.transfer_rent == y.transfer_rent && x.size_update == y.size_update);
+            kani::cover!(x.size_update == TickArraySizeUpdate::Increase && x.transfer_rent == TickArrayRentTransfer::TransferToTickArray, "grow");
+            kani::cover!(x.size_update == TickArraySizeUpdate::Decrease && x.transfer_rent == TickArrayRentTransfer::TransferToPosition, "shrink");
+        }
+        _ => assert!(false, "both are infallible"),
+    }
+    core::mem::forget(a);
+    core::mem::forget(p);
+}
+
+// ---------------------------------------------------------------------------------------------
+// §3 twin
 
 /// vacuity twin: must FAIL
 // @verif prop=C12 tier=quick timeout=300 twin
